@@ -56,8 +56,33 @@ fn generate(rng: &mut Rng) -> C17Sc {
         }
         clients.push(NetClient { connect_at_ns: t, peer: format!("10.1.{}.{}:{}", i / 100, 1 + i % 100, 41_000 + i), spec, wplan: vec![] });
     }
+    // rarely: a listener that has seen a crowd of short connections come and go while one slow player is still
+    // being routed (whatever it keeps per connection has been appended to and pruned many times by the stop)
+    let crowd = rng.chance(1, 40);
+    if crowd {
+        let extra = *rng.pick(&[70u64, 130, 260]);
+        for k in 0..extra {
+            let i = n + k;
+            let mut spec = ClientSpec::base(rng, 1);
+            spec.close_on_end_ns = Some(0);
+            if proxy.is_some() {
+                let src: std::net::SocketAddr = format!("198.51.100.{}:{}", 1 + i % 200, 51_000 + i).parse().unwrap();
+                let dst: std::net::SocketAddr = "192.0.2.200:25565".parse().unwrap();
+                spec.preamble = Some(v2_header(&src, &dst, false));
+            }
+            clients.push(NetClient { connect_at_ns: ms(200 + rng.range(0, 5000)), peer: format!("10.1.{}.{}:{}", i / 100, 1 + i % 100, 41_000 + i), spec, wplan: vec![] });
+        }
+        // and one ordinary login at the very start that takes its time
+        if let Some(c) = clients.first_mut() {
+            c.connect_at_ns = 0;
+            c.spec.intent = 2;
+            c.spec.mute_after = None;
+            c.spec.cuts.clear();
+        }
+    }
     clients.sort_by_key(|c| c.connect_at_ns);
     let stop_at = match rng.below(4) {
+        _ if crowd => ms(5300 + rng.range(0, 3000)),
         // exactly at a connect instant
         0 | 1 if !times.is_empty() => *rng.pick(&times),
         2 => ms(rng.range(0, 12_000)),
